@@ -17,6 +17,7 @@ type keySnap struct {
 	MD5     string
 	Size    int
 	Headers string // entity headers, sorted "K: v" lines
+	ETag    string // the ETag header, unquoted
 }
 
 func (k *keySnap) String() string {
@@ -66,6 +67,7 @@ func (r *Run) observeKey(bucket, key string) *keySnap {
 		ks.MD5 = hex.EncodeToString(s[:])
 		ks.Size = len(resp.Body)
 		ks.Headers = entityHeaders(resp)
+		ks.ETag = strings.Trim(resp.Header.Get("ETag"), `"`)
 	}
 	return ks
 }
